@@ -14,7 +14,7 @@ import (
 )
 
 // ---------------------------------------------------------------------------------------------
-// Raw-state dump (every private field; maps sorted by key, slices in stored order) and observable
+// Raw-state dump (every private field; maps sorted by key, dot slices sorted, other slices in stored order) and observable
 // value (what the public read accessors return; sets/multisets sorted so that map iteration order
 // and entry order cannot leak into the observation).
 // ---------------------------------------------------------------------------------------------
@@ -37,12 +37,16 @@ func c38U64Map(m map[string]uint64) string {
 	return b.String()
 }
 
+// c38Dots renders the dots of one element sorted: their order in the slice has no influence on any
+// operation (Merge keeps/drops dots individually, Compact takes a maximum per node) and ORSet.Compact
+// builds its slices in map iteration order, so the stored order is not even deterministic.
 func c38Dots(ds []dot) string {
-	var b strings.Builder
-	for _, d := range ds {
-		fmt.Fprintf(&b, "(%s:%d)", d.nodeID, d.counter)
+	parts := make([]string, len(ds))
+	for i, d := range ds {
+		parts[i] = fmt.Sprintf("(%s:%d)", d.nodeID, d.counter)
 	}
-	return b.String()
+	sort.Strings(parts)
+	return strings.Join(parts, "")
 }
 
 func c38DotMap(m map[any][]dot) string {
